@@ -413,6 +413,8 @@ func (r *RemoteList) RefreshFromHandshake(vpnAddrs []netip.Addr) {
 	r.badRemotes = nil
 	r.vpnAddrs = make([]netip.Addr, len(vpnAddrs))
 	copy(r.vpnAddrs, vpnAddrs)
+	// previously blocked remotes are candidates again
+	r.shouldRebuild = true
 	r.Unlock()
 }
 
@@ -420,6 +422,8 @@ func (r *RemoteList) RefreshFromHandshake(vpnAddrs []netip.Addr) {
 func (r *RemoteList) ResetBlockedRemotes() {
 	r.Lock()
 	r.badRemotes = nil
+	// previously blocked remotes are candidates again
+	r.shouldRebuild = true
 	r.Unlock()
 }
 
